@@ -144,6 +144,116 @@ def impl_run(task):
     return {"outcome": "Ok", "outs": outs}
 
 
+def impl_e2e(task):
+    """the conditions analysis() itself reports (warning log) for systems given as equations: each must be genuine with
+    respect to the WHOLE system matrix, and the list must be the one find_singularities gives for the whole (P, A)"""
+    import logging
+    import sympy
+    import odetoolbox
+    from odetoolbox.config import Config
+    from odetoolbox.singularity_detection import SingularityDetection
+    outs = []
+    for spec in task["specs"]:
+        n = spec["n"]
+        names = ["x%d" % i for i in range(n)]
+        loc = {k: sympy.Symbol(k) for k in spec["symbols"]}
+        A = sympy.zeros(n, n)
+        rows = {i: [] for i in range(n)}
+        for (i, j, txt) in spec["entries"]:
+            A[i, j] = sympy.parsing.sympy_parser.parse_expr(txt, local_dict=dict(loc))
+            rows[i].append("(%s)*%s" % (txt, names[j]))
+        ind = {"dynamics": [{"expression": "%s' = %s" % (names[i], " + ".join(rows[i]) if rows[i] else "0*%s" % names[i]), "initial_value": "1"} for i in range(n)]}
+        records = []
+
+        class H(logging.Handler):
+            def emit(self, rec):
+                records.append(rec.getMessage())
+        h = H(level=logging.WARNING)
+        logging.getLogger().addHandler(h)
+        prev_disable = logging.root.manager.disable
+        logging.disable(logging.NOTSET)       # the workers silence logging; the conditions are reported through it
+        defaults = dict(Config.config)
+        try:
+            try:
+                res = odetoolbox.analysis(ind, disable_stiffness_check=True, log_level="WARNING")
+            except BaseException as e:   # noqa
+                if isinstance(e, KeyboardInterrupt):
+                    raise
+                outs.append({"skipped": "%s: %s" % (type(e).__name__, str(e)[:120])})
+                continue
+        finally:
+            logging.getLogger().removeHandler(h)
+            logging.disable(prev_disable)
+            Config.config.clear()
+            Config.config.update(defaults)
+        ana = [s_ for s_ in res if s_["solver"] == "analytical"]
+        if not ana or sorted(ana[0]["state_variables"]) != sorted(names):
+            outs.append({"skipped": "not fully analytic"})
+            continue
+        could_not = any("Could not check" in m for m in records)
+        reported = []
+        for m in records:
+            if m.startswith("\t"):
+                c = {}
+                for part in m.strip().split(" \u2227 "):
+                    k, v = part.split(" = ", 1)
+                    c[sympy.Symbol(k.strip())] = sympy.parsing.sympy_parser.parse_expr(v, local_dict=dict(loc))
+                reported.append(c)
+        hs = sympy.Symbol("__h")
+        ns = dict(loc)
+        ns["__h"] = hs
+        P = sympy.zeros(n, n)
+        for key, ex in ana[0]["propagators"].items():
+            a, b = key[len("__P__"):].split("__")
+            P[names.index(a), names.index(b)] = sympy.parsing.sympy_parser.parse_expr(ex, local_dict=dict(ns))
+        fails = []
+        for c in reported:
+            As = [sympy.simplify(e.subs(list(c.items()))) for e in sympy.flatten(A)]
+            if any(x.has(sympy.zoo) or x.has(sympy.nan) or x.has(sympy.oo) for x in As):
+                fails.append("analysis() reports the condition %s, which makes the system matrix itself undefined" % {str(k): str(v) for k, v in c.items()})
+            Ps = [sympy.simplify(e.subs(list(c.items()))) for e in sympy.flatten(P)]
+            if not any(x.has(sympy.zoo) or x.has(sympy.nan) or x.has(sympy.oo) for x in Ps):
+                fails.append("analysis() reports the condition %s, which makes no returned propagator undefined" % {str(k): str(v) for k, v in c.items()})
+        canon = lambda lst: sorted(sorted((str(k), str(sympy.simplify(v))) for k, v in c.items()) for c in lst)
+        whole = None
+        if not could_not:
+            try:
+                whole = SingularityDetection.find_singularities(P, A)
+            except Exception:   # noqa
+                whole = None
+        if whole is not None and canon(whole) != canon(reported):
+            fails.append("analysis() reports %s; find_singularities on the whole propagator and system matrix gives %s" % (canon(reported), canon(whole)))
+        outs.append({"reported": canon(reported), "fails": fails, "indict": ind, "could_not": could_not})
+    return {"outcome": "Ok", "outs": outs}
+
+
+def gen_multiblock(rng):
+    """two or three UNCOUPLED blocks sharing parameters: a cascade with symbolic rates, and blocks whose own entries have the
+    cascade's critical combination (or a single rate) in a denominator"""
+    syms = ["a0", "a1", "a2"][: rng.choice([2, 2, 3])]
+    entries = []
+    k = len(syms)
+    for i in range(k):
+        entries.append((i, i, "-%s" % syms[i]))
+        if i > 0:
+            entries.append((i, i - 1, rng.choice(["1", "2"])))
+    n = k
+    for _ in range(rng.choice([1, 1, 2])):
+        q = rng.random()
+        if q < 0.4:
+            a, b = rng.sample(syms, 2)
+            entries.append((n, n, "-1/(%s - %s)" % (a, b)))
+        elif q < 0.6:
+            entries.append((n, n, "-1/%s" % rng.choice(syms)))
+        elif q < 0.8:
+            a, b = rng.sample(syms, 2)
+            entries.append((n, n, "-(%s + %s)" % (a, b)))
+        else:
+            entries.append((n, n, "-3"))
+        n += 1
+    return {"n": n, "entries": entries, "symbols": syms, "kind": "multiblock"}
+
+
 def gen_spec(rng):
     kind = rng.choice(["chain", "chain", "tree", "chain_tau", "repeat", "numeric"])
     n = rng.randint(2, 4 if kind != "tree" else 4)
@@ -201,7 +311,11 @@ def run(ctx):
     quick = ctx["tier"] == "quick"
     specs = list(FIXED) + [gen_spec(rng) for _ in range(28 if quick else 200)]
     chunks = [specs[i::C.NPROC] for i in range(C.NPROC)]
-    res = C.run_tasks([{"fn": "c11.impl_run", "specs": ch, "timeout": 900} for ch in chunks if ch], timeout=900)
+    e2e_specs = [gen_multiblock(rng) for _ in range(10 if quick else 80)] + [sp for sp in specs if sp["kind"] in ("chain", "tree", "chain_tau", "repeat") and not sp.get("P_override")][: (6 if quick else 40)]
+    e2e_chunks = [e2e_specs[i::C.NPROC] for i in range(C.NPROC)]
+    main_tasks = [{"fn": "c11.impl_run", "specs": ch, "timeout": 900} for ch in chunks if ch]
+    allres = C.run_tasks(main_tasks + [{"fn": "c11.impl_e2e", "specs": ch, "timeout": 900} for ch in e2e_chunks if ch], timeout=900)
+    res, eres = allres[:len(main_tasks)], allres[len(main_tasks):]
     outs = [None] * len(specs)
     corr_errors = []
     for ci, r in enumerate(res):
@@ -233,20 +347,42 @@ def run(ctx):
             nontriv.add(C.stable_hash(sp))
         if len(samples) < 3 and o["n_conditions"]:
             samples.append({"A_entries": sp["entries"], "P_first_entries": o["P"], "reported": o["conditions"]})
+    dist["end_to_end"] = {"systems": 0, "skipped": 0, "conditions_reported": 0, "multiblock": sum(1 for sp in e2e_specs if sp["kind"] == "multiblock")}
+    for ci, r in enumerate(eres):
+        if r.get("outcome") != "Ok":
+            corr_errors.append("end-to-end worker failed: %s" % str(r)[:300])
+            continue
+        for k, o in enumerate(r["outs"]):
+            sp = [ch for ch in e2e_chunks if ch][ci][k]
+            if "skipped" in o:
+                dist["end_to_end"]["skipped"] += 1
+                continue
+            dist["end_to_end"]["systems"] += 1
+            dist["end_to_end"]["conditions_reported"] += len(o["reported"])
+            nontriv.add(C.stable_hash(["e2e", sp]))
+            for f in o["fails"][:2]:
+                probe_failures.append({"key": "conditions reported by analysis(): " + C.stable_hash([sp, f[:60]]), "what": f + " | input %s" % o["indict"]["dynamics"], "replay": {"e2e_spec": sp}})
     mism, errs = C.coq_eval_shards(PROP, HEADER, coq, per=8)
     corr_errors += errs
     corr_mismatches = [{"layer": "find_singularities(P, A) vs Model/Singularity.find_singularities with the oracle tables", "case": info[i]} for i in mism[:6]]
     return {"evaluations": len(coq), "distinct_nontrivial": len(nontriv),
             "rule": "triangular chains and trees with symbolic decay constants (distinct, repeated, as 1/tau so that the parameters also sit in A's denominators), numeric diagonals with a symbolic coupling, a symbolic-exponent matrix (detection must raise); non-trivial = at least one condition reported; distinct by hash of the matrix",
             "samples": samples, "distribution": dist,
-            "layers": {"L1 find_singularities (in Coq, order included)": len(coq), "probe: genuineness of each reported condition + closed-form completeness": len(specs)},
+            "layers": {"L1 find_singularities (in Coq, order included)": len(coq), "probe: genuineness of each reported condition + closed-form completeness": len(specs),
+                       "probe: conditions logged by analysis() on equations (incl. uncoupled blocks sharing parameters): genuine w.r.t. the whole system matrix, equal to find_singularities(whole P, whole A)": dist["end_to_end"]["systems"]},
             "corr_mismatches": corr_mismatches, "corr_errors": corr_errors, "probe_failures": probe_failures}
 
 
 def replay(payload):
     rp = payload.get("replay") or {}
-    if "spec" not in rp:
+    if "spec" not in rp and "e2e_spec" not in rp:
         return True, "replay file names a broken obligation (no concrete input): " + str(payload.get("no_longer_checks"))[:500]
+    if "e2e_spec" in rp:
+        sp = rp["e2e_spec"]
+        sp["entries"] = [tuple(e) for e in sp["entries"]]
+        r = C.run_tasks([{"fn": "c11.impl_e2e", "specs": [sp]}], timeout=900)[0]
+        f = r.get("outs", [{}])[0].get("fails", ["run failed"])
+        return (not f), "probe failures: %s" % f
     sp = rp["spec"]
     sp["entries"] = [tuple(e) for e in sp["entries"]]
     r = C.run_tasks([{"fn": "c11.impl_run", "specs": [sp]}], timeout=900)[0]
